@@ -15,7 +15,8 @@ from . import _align_common as ac
 TITLE = "Seeded results are reproducible under any thread schedule"
 DECIDING = ["M-EXEC", "M-REPRO", "M-HASHSEED"]
 LEVEL = "exploration"
-RULE = ("a scenario = (continuum, dissimilarity, sampler, mode, n_samples, precision, numpy seed); its result vector "
+RULE = ("a scenario = (continuum, dissimilarity, sampler, mode, n_samples, precision, ground-truth subset given as an "
+        "unsorted list or a set, numpy seed); its result vector "
         "(observed disorder, every chance disorder in order, gamma, gamma-cat, every gamma-k) is computed once with a "
         "single worker running jobs in submission order, and again under schedules produced by an instrumented executor "
         "(M-EXEC) that replaces the library's ThreadPoolExecutor: worker counts 1,2,3,5,8,16; jobs held until the "
@@ -86,7 +87,11 @@ def result_vector(ctx, sc, policy, workers, sched_seed):
     try:
         with spy.recording() as log:
             np.random.seed(sc["np_seed"])
+            gt = sc.get("ground_truth")
+            if gt is not None:
+                gt = set(gt) if sc.get("ground_truth_as") == "set" else list(gt)
             res = continuum.compute_gamma(dissim, n_samples=sc["n_samples"], precision_level=sc["precision"],
+                                          ground_truth_annotators=gt,
                                           sampler=make_sampler(sc["sampler"]), fast=sc["mode"] == "fast",
                                           soft=sc["mode"] == "soft")
             vals = [float(res.observed_disorder)] + [float(a.disorder) for a in res.chance_alignments] + [float(res.gamma)]
@@ -110,10 +115,15 @@ def result_vector(ctx, sc, policy, workers, sched_seed):
 def gen_scenario(rng, dspecs):
     dspec = rng.choice(dspecs)
     labels = cases.dissim_labels(dspec) or cases.LABELS_SMALL
-    n = rng.choice([2, 2, 3, 3, 4])
+    n = rng.choice([2, 3, 3, 4, 4])
     cspec = cases.gen_continuum(rng, n_annot=n, max_units={2: 7, 3: 5, 4: 3}[n], allow_empty=False, labels=labels,
                                 family=rng.choice(["grid", "dyadic", "touching", "generic", "longoverlap", "nested"]))
-    return {"continuum": cspec, "dissim": dspec, "sampler": rng.choice(["statistical", "shuffle_int", "shuffle_float"]),
+    names = sorted(cspec["ann"].keys())
+    gt = None
+    if n >= 3 and rng.random() < 0.5:
+        gt = rng.sample(names, rng.randint(2, n))       # deliberately unsorted
+    return {"continuum": cspec, "dissim": dspec, "ground_truth": gt, "ground_truth_as": rng.choice(["set", "list"]),
+            "sampler": rng.choice(["statistical", "shuffle_int", "shuffle_float"]),
             "mode": rng.choice(["exact", "exact", "fast", "soft"]), "n_samples": rng.choice([2, 4, 6, 9, 12]),
             "precision": rng.choice([None, None, 0.3, 0.5]), "np_seed": rng.randrange(2 ** 31)}
 
